@@ -400,6 +400,36 @@ def run_shard(spec):
     for w in (codec.Py2Str(b"\xe9"), codec.Py2Unicode("é"), codec.Py2Long(2**70)):
         execnet.loads(codec.encode(w), py2str_as_py3str=True)
 
+    # ---- no memory between loads: what loads(x) gives does not depend on what was loaded before, whatever the
+    # switches of those other loads were (same payload bytes under another opcode / another decoding)
+    def outcome(data, **kw):
+        try:
+            return ("ok", repr(values.canon(execnet.loads(data, **kw))))
+        except (execnet.DataFormatError, EOFError) as e:
+            return ("typed", type(e).__name__)
+        except BaseException as e:  # noqa
+            return ("untyped", type(e).__name__)
+
+    for i in range(150 if spec["tier"] == "quick" else 5000):
+        n = rng.choice((1, 2, 3, 8, 31, 32, 33, 100))
+        payload = bytes(rng.choice((0x41, 0xE9, 0xFF, 0xFE, 0xC3, 0xA9, 0x80, 0x20)) for _ in range(n))
+        ln = struct.pack("!i", n)
+        as_py3 = b"\x02N" + ln + payload + b"Q"
+        as_py2 = b"\x02M" + ln + payload + b"Q"
+        as_uni = b"\x02S" + ln + payload + b"Q"
+        probes = [(as_py3, {}), (as_uni, {}), (as_py2, {}), (as_py2, {"py2str_as_py3str": True}), (as_py3, {"py3str_as_py2str": True})]
+        before = [outcome(d, **kw) for d, kw in probes]
+        rng.shuffle(probes_order := list(range(len(probes))))
+        for j in probes_order:
+            outcome(probes[j][0], **probes[j][1])
+        after = [outcome(d, **kw) for d, kw in probes]
+        res.count("order_independence_probes", len(probes))
+        if before != after:
+            k = next(k for k in range(len(probes)) if before[k] != after[k])
+            res.violation("loads-outcome-depends-on-earlier-loads",
+                          f"payload {payload.hex()} as {probes[k][0][1:2]!r} with {probes[k][1]}: first {before[k]}, after other loads {after[k]}")
+            break
+
     # ---- mutations of valid dumps
     nd = spec["ndumps"]
     for di in range(nd):
